@@ -302,7 +302,8 @@ def plans(sig, net, rng):
         add("duplicate_in_index", kw, n)
         kw, n = valid_kwargs(sig, net, rng, n=2)
         kw["index"] = [free]
-        if sig.fn == "create_junctions":     # the code ignores nr_junctions when an index is passed: 1 row
+        if sig.fn == "create_junctions" and not sig.index_len_check:
+            # the code ignores nr_junctions when an index is passed (no length comparison found by the translator): 1 row
             add("index_length", kw, 1)
         else:
             add("index_length", kw, n, len_bad=True)
@@ -998,3 +999,57 @@ def run(ctx):
                 ctx.violation({"clause": "twin_defaults", "fn": b, "param": tsig.singular(p)},
                               "default of %s is %s in %s but %s in %s" % (p, d, b, d2, t),
                               {"fn": b, "twin": t, "param": p, "defaults": [d, d2]})
+
+
+def replay(ctx, path):
+    """./check C16 --replay replay/C16_<hash>.json : rebuild the base net (same VERIF_SEED / tier as recorded in the
+    file), repeat the call on the current tree and re-evaluate the clause of the recorded signature"""
+    import pandapipes as pp
+    obj = json.load(open(path))
+    r, sig = obj.get("replay", {}), obj.get("signature", {})
+    if "fn" not in r or "net" not in r or "kwargs" not in r:
+        ctx.broken("replay", "unsupported replay record", "only create-call records (net, fn, kwargs) can be replayed: %s" % list(r))
+        return
+    if obj.get("seed") != ctx.seed or obj.get("tier") != ctx.tier:
+        ctx.note("replay recorded with seed %s tier %s: run with VERIF_SEED=%s --tier %s to rebuild generated nets"
+                 % (obj.get("seed"), obj.get("tier"), obj.get("seed"), obj.get("tier")))
+    builders = dict(base_nets(ctx))
+    if r["net"] not in builders:
+        ctx.broken("replay", "base net %s not available" % r["net"], "")
+        return
+    raw = tsig.extract()
+    sigs = [Sig(x) for x in raw]
+    sg = [x for x in sigs if x.fn == r["fn"]][0]
+    net = builders[r["net"]]()
+    kw = dict(r["kwargs"])
+    if isinstance(kw.get("geodata"), list) and r["fn"] == "create_junction":
+        kw["geodata"] = tuple(kw["geodata"])
+    before = deep_snapshot(net)
+    try:
+        ret = getattr(pp, r["fn"])(net, **kw)
+        ok, exc = True, ""
+    except Exception as e:  # noqa: BLE001
+        ok, ret, exc = False, None, "%s: %s" % (type(e).__name__, str(e)[:120])
+    diff = snap_diff(before, deep_snapshot(net))
+    print("replay: %s(%s) on net %s -> %s; changed: %s" % (r["fn"], kw, r["net"], exc or "ok %r" % (ret,), diff))
+    clause = sig.get("clause")
+    again = False
+    if clause == "atomic":
+        again = (not ok) and bool(diff)
+    elif clause == "rejects":
+        again = ok
+    elif clause == "accepts_valid":
+        again = not ok
+    elif clause == "referential_integrity":
+        again = ok and bool(ri_violations(net, sigs, sg.table, [int(x) for x in (ret if sg.bulk else [ret])]))
+    elif clause == "adds_exactly":
+        again = ok and any(d != "table:" + sg.table for d in diff)
+    elif clause == "adds_or_raises":
+        again = ok and ret is None
+    else:
+        ctx.note("clause %r is re-evaluated by the full check only" % clause)
+    ctx.case({"replay": path}, True)
+    if again:
+        ctx.violation(sig, "replayed: " + obj.get("what", ""), r)
+    else:
+        print("replay: the recorded failure does not occur on the current tree")
